@@ -371,6 +371,14 @@ def run(ctx, replay=None):
         progs = [small_opt_program(r) for _ in range(n * 2 // 3)]
         progs += gen.generate(ctx.seed * 1000 + 77, n - len(progs), 'objectives', 'quick')
         cfgsets = [all_configs(r, any(o[0] == 'ONewObjective' for o in p), 2) for p in progs]
+        # the corpus (witnesses of the listed findings, with their configurations) runs first
+        cdir = os.path.join(common.VERIF, 'corpus', ctx.prop)
+        if os.path.isdir(cdir):
+            for fn in sorted(os.listdir(cdir), reverse=True):
+                if fn.endswith('.json'):
+                    j = json.load(open(os.path.join(cdir, fn)))
+                    progs.insert(0, terms.from_jsonable(j['program']))
+                    cfgsets.insert(0, j['configs'])
     else:
         progs = [conflicting_program(r) for _ in range(n * 3 // 4)] + [engine_solver.small_program(r) for _ in range(n - n * 3 // 4)]
         cfgsets = [[dict(debug=True), dict()] for _ in progs]
@@ -637,7 +645,15 @@ def cross_config(prop, res):
             out.append(('second-solve-infeasible', rec['cfg'], 'solve() again on the same object reports no solution'))
     vals = [(rec['cfg'], rec['objective_value']) for rec in recs if rec.get('finished') and 'objective_value' in rec]
     if len({v for _, v in vals}) > 1:
-        out.append(('optimum-differs', None, vals))
+        kind = 'optimum-differs'
+        counts = collections.Counter(v for _, v in vals)
+        dflt = [v for c, v in vals if not c]
+        major = dflt[0] if dflt else counts.most_common(1)[0][0]
+        outliers = [c for c, v in vals if v != major]
+        if outliers and all(c.get('optimizer') == 'optimize' and c.get('debug') for c in outliers):
+            # finding F43: z3.Optimize fed through assert_and_track (debug mode) does not optimise reliably
+            kind = 'optimum-differs-debug-optimize'
+        out.append((kind, None, vals))
     wvals = [(rec['cfg'], rec['weighted_value']) for rec in recs if rec.get('finished') and 'weighted_value' in rec
              and (rec['cfg'].get('optimizer', 'incremental') == 'incremental' or rec['cfg'].get('optimize_priority') == 'weight')]
     if len({v for _, v in wvals}) > 1:
